@@ -81,6 +81,19 @@ func (e *Exec) step(fr *frame, st *State, in ssa.Instruction, b *ssa.BasicBlock)
 			fr.vals[x] = &Ptr{Kind: pCell, Cell: c, Root: et, Type: et}
 			return true
 		}
+		if _, isStruct := et.Underlying().(*types.Struct); isStruct && e.quant == 0 && e.spec == 0 {
+			// closed heap: every reference that a slice of *T holds was allocated before the object being
+			// allocated now (the same fact is assumed of every reference the code loads; stated here for
+			// all elements at once so that quantified specifications over such a slice still speak about the
+			// old objects after the allocation)
+			name, srt := e.ti.elemComp(types.NewPointer(et), nil)
+			if _, known := st.heap[name]; known && srt == SInt {
+				as := arraySort(SInt, srt)
+				arr := e.heapComp(st, name, SInt, arraySort(SInt, as))
+				sel := fmt.Sprintf("(select (select %s cx!a) cx!i)", arr.S)
+				e.assume(st, Term{fmt.Sprintf("(forall ((cx!a Int) (cx!i Int)) (! (<= %s %s) :pattern (%s)))", sel, st.alloc.S, sel), SBool})
+			}
+		}
 		ref := e.allocRef(st, x.Comment)
 		p := &Ptr{Kind: pHeap, Ref: ref, Root: et, Type: et}
 		switch u := et.Underlying().(type) {
